@@ -150,4 +150,16 @@ def programs(tier):
         add("annotation-in-body", n, hd + MAINH + "    " + stmt + "\n" + MAINT, [], expect="reject")
     add("annotation-in-body", "known-types:control", hd + MAINH + "    let f = |b: Box[int32], v: Vec[(int32, string)]| b.v + vec_len(v);\n    let w: Vec[(int32, string)] = vec_new();\n"
         "    let _ = string_println(int32_to_string(f(Box { v: 4 }, w)));\n" + MAINT, ["4"])
+    # ---- `==` / `!=` on operands whose Go representation cannot be compared (vectors: slices; closures: environment structs of two
+    # different types), and builtin operators on a bare type parameter instantiated at a type that has none (OPEN findings)
+    eqs = {"vectors": ("let a: Vec[int32] = vec_push(vec_new(), 1);\n    let b: Vec[int32] = vec_push(vec_new(), 1);\n    let _ = string_println(bool_to_string(a == b));", None),
+           "integers:control": ("let _ = string_println(bool_to_string(1 == 1) + bool_to_string(2 != 2));", ["truefalse"]),
+           "strings:control": ("let _ = string_println(bool_to_string(\"a\" == \"a\"));", ["true"]),
+           "structs-of-integers:control": ("let _ = string_println(bool_to_string(PI { a: 1, b: 2 } == PI { a: 1, b: 2 }) + bool_to_string(PI { a: 1, b: 2 } == PI { a: 1, b: 3 }));", ["truefalse"])}
+    for n, (stmt, lines) in eqs.items():
+        add("equality-operands", n, "struct HV { v: Vec[int32] }\nstruct PI { a: int32, b: int32 }\n" + MAINH + "    " + stmt + "\n" + MAINT, lines or ["?"])
+    tp = "struct V2 { x: int32, y: int32 }\nfn dbl[T](a: T) -> T { a + a }\nfn lt[T](a: T, b: T) -> bool { a < b }\n"
+    add("operator-on-type-parameter", "instantiated-at-a-struct", tp + MAINH + "    let v = dbl(V2 { x: 1, y: 2 });\n    let _ = string_println(int32_to_string(v.x));\n" + MAINT, ["?"])
+    add("operator-on-type-parameter", "instantiated-at-numbers-and-strings:control", tp + MAINH +
+        "    let _ = string_println(int32_to_string(dbl(21)) + dbl(\"ab\") + bool_to_string(lt(1, 2)) + bool_to_string(lt(\"b\", \"a\")));\n" + MAINT, ["42ababtruefalse"])
     return out
